@@ -80,8 +80,13 @@ for key,(what,needs) in sorted(DESC.items()):
             "caught_by": caught, "clauses": clauses[:6]}
     json.dump(meta, open(dst+"/meta.json","w"), indent=1)
     index.append((key, what, needs, caught, m.group(1), m.group(2), m.group(3)))
+rows = []
+for d in sorted(glob.glob("/verif/seeded/C*-*")):
+    m = json.load(open(d+"/meta.json"))
+    c = m["confirmed"]
+    rows.append((os.path.basename(d), m["change"], m["needs_to_manifest"], m["caught_by"], c["baseline_tests_pass_with_change_x2"], c["demo_with_change"], c["demo_without_change"]))
 with open("/verif/seeded/INDEX.md","w") as f:
     f.write("# Seeded changes written by sub-agents (each saw only one property's text)\n\n| id | change | needs | baseline green | demo with/without | caught by |\n|---|---|---|---|---|---|\n")
-    for key,what,needs,caught,b,w,wo in index:
-        f.write(f"| {key} | {what} | {needs} | {'yes' if b=='1' else 'NO'} | {w}/{wo} | {', '.join(caught) if caught else '**missed**'} |\n")
-print(len(index), "seeds indexed; missed:", [k for k,_,_,c,_,_,_ in index if not c])
+    for key,what,needs,caught,b,w,wo in rows:
+        f.write(f"| {key} | {what} | {needs} | {'yes' if b else 'NO'} | {w}/{wo} | {', '.join(caught) if caught else '**missed**'} |\n")
+print(len(index), "seeds processed now;", len(rows), "in the index; missed:", [k for k,_,_,c,_,_,_ in rows if not c])
